@@ -107,7 +107,7 @@ def build():
     reg.methods[("Arr", "__pow__")] = arr_pow
     reg.methods[("Arr", "shape")] = arr_shape
     cs = []
-    common = dict(returns=ARR, globals=G, spec_env=SPEC_ENV, axioms=[numpy_axioms], no_monitor=True, props=["C13", "C04"])
+    common = dict(returns=ARR, globals=G, spec_env=SPEC_ENV, axioms=[numpy_axioms], props=["C13", "C04"])
     # FIT: empty state, center=True, scale=True
     fit = Contract(
         T, params={"data": "Arr", "center": "Bool", "scale": "Bool", "ddof": "Real", "_state": {"__class__": "StrKeyDict"}},
@@ -138,8 +138,42 @@ def build():
     return reg, cs
 
 
+def _np(x):
+    import numpy
+
+    return numpy.asarray(x, dtype=float)
+
+
+CONCRETE_ENV = {
+    "mean": lambda a: _np(a).mean(axis=0), "sumsq": lambda a: (_np(a) ** 2).sum(axis=0), "nrows": lambda a: _np(a).shape[0],
+    "sqrt": lambda x: __import__("numpy").sqrt(x), "centered": lambda a, c: _np(a) - c, "scaled": lambda a, c: _np(a) / c,
+}
+
+
+def workloads():
+    def w():
+        import warnings
+
+        import numpy as np
+        import pandas as pd
+
+        import formulaic
+
+        rng = np.random.default_rng(11)
+        frames = [pd.DataFrame({"a": rng.normal(3, 2, size=n), "b": rng.uniform(1, 9, size=n)}) for n in (3, 12, 64, 150)]
+        for f in ("scale(a)", "center(b) + scale(a)", "scale(a, ddof=0)", "scale(a, center=False)", "scale(b, scale=False)", "scale(a):center(b)"):
+            for train in frames:
+                with warnings.catch_warnings():
+                    warnings.simplefilter("ignore")
+                    mm = formulaic.model_matrix(f, train)
+                    for other in frames:
+                        mm.model_spec.get_model_matrix(other)
+
+    return [w]
+
+
 def run_proofs(ctx):
     reg, cs = build()
     ctx.assume("A-float: floating point treated as real arithmetic", "A-lib(numpy): aggregate/broadcast axioms listed in vf/proofs/c13.py (column-vector semantics)",
                "@stateful_transform dropped by extraction (state threading exercised by the bounded drivers)")
-    run_contracts(ctx, cs, reg)
+    run_contracts(ctx, cs, reg, workloads=workloads(), concrete_env=CONCRETE_ENV)
